@@ -2155,6 +2155,15 @@ func unmarshalTuple(info TypeInfo, data []byte, value interface{}) error {
 				p, data = readBytes(data)
 			}
 
+			if f := rv.Field(i); f.Kind() != reflect.Interface {
+				// unmarshal into the field itself: any Go type supported for
+				// the element type, nil pointer for null
+				if err := Unmarshal(elem, p, f.Addr().Interface()); err != nil {
+					return err
+				}
+				continue
+			}
+
 			v, err := elem.NewWithError()
 			if err != nil {
 				return err
@@ -2162,17 +2171,7 @@ func unmarshalTuple(info TypeInfo, data []byte, value interface{}) error {
 			if err := Unmarshal(elem, p, v); err != nil {
 				return err
 			}
-
-			switch rv.Field(i).Kind() {
-			case reflect.Ptr:
-				if p != nil {
-					rv.Field(i).Set(reflect.ValueOf(v))
-				} else {
-					rv.Field(i).Set(reflect.Zero(reflect.TypeOf(v)))
-				}
-			default:
-				rv.Field(i).Set(reflect.ValueOf(v).Elem())
-			}
+			rv.Field(i).Set(reflect.ValueOf(v).Elem())
 		}
 
 		return nil
@@ -2192,6 +2191,15 @@ func unmarshalTuple(info TypeInfo, data []byte, value interface{}) error {
 				p, data = readBytes(data)
 			}
 
+			if f := rv.Index(i); f.Kind() != reflect.Interface {
+				// unmarshal into the element itself: any Go type supported for
+				// the element type, nil pointer for null
+				if err := Unmarshal(elem, p, f.Addr().Interface()); err != nil {
+					return err
+				}
+				continue
+			}
+
 			v, err := elem.NewWithError()
 			if err != nil {
 				return err
@@ -2199,17 +2207,7 @@ func unmarshalTuple(info TypeInfo, data []byte, value interface{}) error {
 			if err := Unmarshal(elem, p, v); err != nil {
 				return err
 			}
-
-			switch rv.Index(i).Kind() {
-			case reflect.Ptr:
-				if p != nil {
-					rv.Index(i).Set(reflect.ValueOf(v))
-				} else {
-					rv.Index(i).Set(reflect.Zero(reflect.TypeOf(v)))
-				}
-			default:
-				rv.Index(i).Set(reflect.ValueOf(v).Elem())
-			}
+			rv.Index(i).Set(reflect.ValueOf(v).Elem())
 		}
 
 		return nil
